@@ -809,6 +809,7 @@ class TempoClock(Clock, metaclass=MetaTempoClock):
             self._pure_nrt = False
             self._task_queue = tsq.TaskQueue()
             self._sched_cond = threading.Condition(_libsc3.main._main_lock)
+            self._run_sched = True  # Set here, stop can precede _run.
             self._thread = threading.Thread(
                 target=self._run,
                 name=f'{type(self).__name__} id: {id(self)}',
@@ -830,12 +831,12 @@ class TempoClock(Clock, metaclass=MetaTempoClock):
             return _libsc3.main.NRT_MODE
 
     def _run(self):
-        self._run_sched = True
-
         with self._sched_cond:
             while True:
                 # // wait until there is something in scheduler
                 while self._task_queue.empty():
+                    if not self._run_sched:
+                        return
                     self._sched_cond.wait()
                     if not self._run_sched:
                         return
